@@ -509,10 +509,10 @@ def roi_is_full(roi: NdROI, shape: Union[int, Tuple[int, ...]]) -> bool:
             return n == 1
         return s.start in (0, None) and s.stop in (n, None)
 
-    if not isinstance(roi, tuple):
+    if not isinstance(roi, abc.Sequence):
         roi = (roi,)
 
-    if not isinstance(shape, tuple):
+    if not isinstance(shape, abc.Sequence):
         shape = (shape,)
 
     return all(slice_full(s, n) for s, n in zip(roi, shape))
